@@ -393,3 +393,162 @@ func heldStr(h int) string {
 		return "the write lock"
 	}
 }
+
+// runRLockWrite is a contradiction rule: a function that holds only the READ
+// lock of a struct's RWMutex must not write a field of that same struct
+// (other readers may run concurrently). It applies to every struct in the
+// program that embeds or contains a sync.RWMutex, with no table.
+func runRLockWrite(p *core.Program, r *core.Report, rule string) {
+	isRW := func(callee *ssa.Function, names ...string) bool {
+		if callee == nil || core.PkgPathOf(callee) != "sync" || callee.Signature.Recv() == nil || core.RecvName(callee.Signature.Recv().Type()) != "RWMutex" {
+			return false
+		}
+		for _, n := range names {
+			if callee.Name() == n {
+				return true
+			}
+		}
+		return false
+	}
+	// mutexBase returns the struct pointer whose field is the mutex operand.
+	mutexBase := func(v ssa.Value) (ssa.Value, string) {
+		switch a := v.(type) {
+		case *ssa.FieldAddr:
+			_, f := core.FieldName(a)
+			return a.X, f
+		case *ssa.UnOp:
+			if fa, ok := a.X.(*ssa.FieldAddr); ok && a.Op == token.MUL {
+				_, f := core.FieldName(fa)
+				return fa.X, f
+			}
+		}
+		return nil, ""
+	}
+	nfn := 0
+	for _, fn := range p.RepoFns {
+		var base ssa.Value
+		mfield := ""
+		ops := map[ssa.Instruction]string{}
+		deferUnlock := false
+		core.Instrs(fn, func(ins ssa.Instruction) {
+			c, ok := ins.(ssa.CallInstruction)
+			if !ok {
+				return
+			}
+			callee := c.Common().StaticCallee()
+			if !isRW(callee, "RLock", "RUnlock", "Lock", "Unlock") || len(c.Common().Args) == 0 {
+				return
+			}
+			b, f := mutexBase(c.Common().Args[0])
+			if b == nil {
+				return
+			}
+			if base == nil {
+				base, mfield = b, f
+			}
+			if b != base || f != mfield {
+				return
+			}
+			if _, isDefer := ins.(*ssa.Defer); isDefer {
+				deferUnlock = true
+				return
+			}
+			ops[ins] = callee.Name()
+		})
+		hasR := false
+		for _, op := range ops {
+			if op == "RLock" {
+				hasR = true
+			}
+		}
+		if base == nil || !hasR {
+			continue
+		}
+		nfn++
+		// stores into fields of the same base
+		writes := map[ssa.Instruction]string{}
+		core.Instrs(fn, func(ins ssa.Instruction) {
+			var addr ssa.Value
+			switch x := ins.(type) {
+			case *ssa.Store:
+				addr = x.Addr
+			case *ssa.MapUpdate:
+				if ld, ok := core.IsLoad(x.Map); ok {
+					addr = ld
+				}
+			}
+			if addr == nil {
+				return
+			}
+			root := addr
+			path := ""
+			for {
+				if fa, ok := root.(*ssa.FieldAddr); ok {
+					_, f := core.FieldName(fa)
+					path = "." + f + path
+					root = fa.X
+					continue
+				}
+				if ia, ok := root.(*ssa.IndexAddr); ok {
+					root = ia.X
+					path = "[]" + path
+					continue
+				}
+				break
+			}
+			if root == base && path != "" {
+				writes[ins] = path
+			}
+		})
+		if len(writes) == 0 {
+			r.OK(rule, core.FnKey(fn)+" holds "+mfield+".RLock and writes no field of the same struct", p.Pos(fn.Pos()), "no store into the receiver while only the read lock is held")
+			continue
+		}
+		type key struct {
+			b    *ssa.BasicBlock
+			held int
+		}
+		seen := map[key]bool{}
+		bad := map[string]ssa.Instruction{}
+		okw := map[string]ssa.Instruction{}
+		var walk func(b *ssa.BasicBlock, held int)
+		walk = func(b *ssa.BasicBlock, held int) {
+			k := key{b, held}
+			if seen[k] {
+				return
+			}
+			seen[k] = true
+			for _, ins := range b.Instrs {
+				switch ops[ins] {
+				case "Lock":
+					held = 2
+				case "RLock":
+					held = 1
+				case "Unlock", "RUnlock":
+					held = 0
+				}
+				if path, ok := writes[ins]; ok {
+					if held == 1 {
+						bad[path] = ins
+					} else {
+						okw[path] = ins
+					}
+				}
+			}
+			for _, s := range b.Succs {
+				walk(s, held)
+			}
+		}
+		_ = deferUnlock
+		walk(fn.Blocks[0], 0)
+		for path, ins := range bad {
+			r.Bad(rule, core.FnKey(fn)+" writes "+path+" under "+mfield+".RLock", p.InsPos(ins), "a field of the struct is written while only its read lock is held: concurrent readers race on it and can observe a half-updated value")
+		}
+		for path, ins := range okw {
+			if _, isBad := bad[path]; !isBad {
+				r.OK(rule, core.FnKey(fn)+" writes "+path+" outside the read-locked region", p.InsPos(ins), "write lock held or no lock region")
+			}
+		}
+	}
+	r.Count(rule+" functions taking a read lock", nfn)
+}
